@@ -3,7 +3,7 @@
 
 * the rows of the table in section 10.2 (one `ROW:` line per property report replaces that property's row);
 * section 10.8 (rounds 4 and 5) between the markers `<!-- BEGIN 10.8 -->` / `<!-- END 10.8 -->`: prose head
-  (tools/design_10_8_head.md), the seed table (every `SEED:` line that names round 4 or round 5), the findings
+  (tools/design_10_8_head.md), the seed table (every `SEED:` line that names round 4, 5 or 6), the findings
   (`FINDING:` lines), false alarms and notes of those rounds, the mutation lines, prose tail (tools/design_10_8_tail.md).
 
 Report line kinds: ROW / SEED / FINDING / FALSEALARM / NOTE / MUTATIONS (one line each, markdown inside).
@@ -26,7 +26,7 @@ def lines_of(kind: str):
 
 
 def later_round(text: str) -> bool:
-    return bool(re.search(r'round[- ]?(4|5)', text))
+    return bool(re.search(r'round[- ]?(4|5|6)', text))
 
 
 def prop_of(stem: str, text: str) -> str:
@@ -59,7 +59,7 @@ def main():
     body += ['', '**Genuine defects found in rounds 3b–5 by the builders and by adversaries reading the unchanged tree** (each repaired by one '
              '`fix:` commit in /repo unless stated otherwise; `fixed` entries in `known_findings.json`; write-ups in `fixes/`):', '']
     body += [f'* {t}' for _st, t in lines_of('FINDING')]
-    body += ['', '**False alarms of our own machinery met in rounds 4 and 5** (each corrected; none loosened a check that was right):', '']
+    body += ['', '**False alarms of our own machinery met in rounds 4 to 6** (each corrected; none loosened a check that was right):', '']
     body += [f'* {t}' for _st, t in lines_of('FALSEALARM') if later_round(t)]
     body += ['', '**Notes** (recorded, not flagged):', '']
     body += [f'* {t}' for _st, t in lines_of('NOTE') if later_round(t)]
@@ -69,7 +69,7 @@ def main():
         i, j = s.index(BEGIN), s.index(END) + len(END) + 1
         s = s[:i] + block + s[j:]
     else:
-        s = s.rstrip('\n') + '\n\n### 10.8 Rounds 4 and 5: more of the code inside the models, two more rounds of seeds\n\n' + block
+        s = s.rstrip('\n') + '\n\n### 10.8 Rounds 4 to 6: more of the code inside the models, three more rounds of seeds\n\n' + block
     p.write_text(s)
     print(f'10.2 rows replaced: {n_rows}; 10.8 seed rows: {len(seeds)}; findings: {len(lines_of("FINDING"))}')
 
